@@ -1469,6 +1469,38 @@ fn main() {
                 Err(_) => { println!("later_flush=stuck"); std::process::exit(0); }
             }
         }
+        // manual_compaction_fault : four level-0 tables; table file writes start to fail; a manual compaction of level 0 is requested
+        // on another thread: the request fails in the background, the requester must come back (15 s watchdog)
+        "manual_compaction_fault" => {
+            use raindb::WriteOptions;
+            let fs = rdbv::faultfs::FaultFs::new();
+            let mut o = raindb::DbOptions::with_memory_env();
+            o.filesystem_provider = std::sync::Arc::new(fs.clone());
+            o.db_path = "db".to_string();
+            o.create_if_missing = true;
+            let db = std::sync::Arc::new(raindb::DB::open(o).expect("open"));
+            db.hold_background_for_verif(true);
+            for round in 0..3 {
+                db.put(WriteOptions::default(), b"a".to_vec(), format!("begin{}", round).into_bytes()).unwrap();
+                db.put(WriteOptions::default(), b"z".to_vec(), format!("end{}", round).into_bytes()).unwrap();
+                db.flush_to_level_zero_for_verif();
+            }
+            println!("level0_files={}", db.num_level_zero_files_for_verif());
+            fs.arm(".rdb", 1, true);
+            db.hold_background_for_verif(false);
+            let (tx, rx) = std::sync::mpsc::channel();
+            let db2 = std::sync::Arc::clone(&db);
+            std::thread::spawn(move || {
+                db2.force_level_compaction_for_verif(0);
+                let _ = tx.send(());
+            });
+            match rx.recv_timeout(std::time::Duration::from_secs(15)) {
+                Ok(()) => println!("requester=returned"),
+                Err(_) => println!("requester=stuck"),
+            }
+            println!("injected_failures={}", fs.failures());
+            std::process::exit(0);
+        }
         // second_open : on the disk file system (real flock): a database is open; a second open of the same path and
         // destroy_database must fail, the first instance keeps working; after it is closed the path can be opened again
         "second_open" => {
